@@ -17,6 +17,9 @@ KNOWN_OPEN = set()
 def gen_cfg(rng, prop, tier):
     cfg = struct.gen_cfg(rng, "C04", tier)
     cfg["qseed"] = rng.randrange(1 << 30)
+    # full observation after every step fills every memo a broken implementation may keep and so can
+    # hide an incomplete invalidation; half of the runs therefore read only a random part each time
+    cfg["part"] = rng.choice((None, None, 0.1, 0.3, 0.6))
     return cfg
 
 
@@ -26,10 +29,14 @@ def battery(step, world, model, res, op, status, exc):
     nodes = world.nodes
     n = len(nodes)
     ix = world.index
+    part = res.cfg_part
+    prng = random.Random(res.cfg_qseed * 31 + step)
     for i in range(n):
         node = nodes[i]
         want = ref[i]
         for attr in NAV_ATTRS:
+            if part is not None and prng.random() > part:
+                continue
             got = lib_nav_one(world, node, attr)
             res.bump("nav_queries")
             if got != want[attr]:
@@ -41,6 +48,8 @@ def battery(step, world, model, res, op, status, exc):
                     "after step %d %s: node %d .%s is %r, definition gives %r (links: %r)" % (step, op, i, attr, got, want[attr], snap),
                 )
         for name, fn, delta in (("leftsibling", util.leftsibling, -1), ("rightsibling", util.rightsibling, 1)):
+            if part is not None and prng.random() > part:
+                continue
             got = ix(fn(node))
             want_s = ref_sibling(snap, i, delta)
             res.bump("util_queries")
@@ -61,6 +70,8 @@ def battery(step, world, model, res, op, status, exc):
     for _ in range(n):
         groups.append(tuple(rng.randrange(n) for _ in range(rng.choice((3, 3, 4)))))
     for g in groups:
+        if part is not None and prng.random() > part:
+            continue
         got = tuple(ix(x) for x in util.commonancestors(*[nodes[k] for k in g]))
         res.bump("util_queries")
         want_c = ref_commonancestors(snap, g)
@@ -78,6 +89,7 @@ def battery(step, world, model, res, op, status, exc):
 def run(cfg, ops=None, rng=None):
     def extra(step, world, model, res, op, status, exc):
         res.cfg_qseed = cfg.get("qseed", 0)
+        res.cfg_part = cfg.get("part")
         battery(step, world, model, res, op, status, exc)
 
     return struct.run(cfg, ops=ops, rng=rng, extra=extra)
